@@ -127,6 +127,34 @@ theorem set_string_effect {h h' : Heap} {t : Nat} {k : Kind} {v : PStr} (hg : Go
     (∀ n, n ≠ h.next → h'.parent n = if n ∈ h.kids t then none else h.parent n) :=
   BS.Heap.setString_effect hg ht hk hs
 
+/-- **insert_before(y₁, …, yₙ)** (distinct elements, none of them the target `x`): all are removed from wherever they were and end
+    up, in the given order, immediately before `x`; the other children keep their order; other lists only lose them.
+    (`insertBefore h x args` is this loop once the guards — not a BeautifulSoup object, has a parent, not among the arguments — pass.) -/
+theorem insert_before_many_effect {h h' : Heap} {x p : Nat} {ys pre post : List Nat} (hg : Good2 h)
+    (hp : h.parent x = some p) (hnd : ys.Nodup) (hx : x ∉ ys) (hk : ∀ y ∈ ys, h.kind y ≠ .soup) (hxs : h.kind x ≠ .soup)
+    (hsplit : (h.kids p).filter (fun k => !ys.contains k) = pre ++ x :: post)
+    (hr : insertBeforeLoop h p x (ys.map Arg.node) = .ok h') :
+    Good2 h' ∧ h'.kids p = pre ++ ys ++ x :: post ∧
+    (∀ n, n ≠ p → h'.kids n = (h.kids n).filter (fun k => !ys.contains k)) ∧ (∀ y ∈ ys, h'.parent y = some p) :=
+  BS.Heap.insertBefore_many_effect ys h h' x p pre post hg hp hnd hx hk hxs hsplit hr
+
+/-- **insert_after(y₁, …, yₙ)**: … immediately after `x`, in the given order -/
+theorem insert_after_many_effect {h h' : Heap} {x p : Nat} {ys pre post : List Nat} (hg : Good2 h)
+    (hp : h.parent x = some p) (hnd : ys.Nodup) (hx : x ∉ ys) (hk : ∀ y ∈ ys, h.kind y ≠ .soup) (hxs : h.kind x ≠ .soup)
+    (hsplit : (h.kids p).filter (fun k => !ys.contains k) = pre ++ x :: post)
+    (hr : insertAfterLoop h p x (ys.map Arg.node) = .ok h') :
+    Good2 h' ∧ h'.kids p = pre ++ x :: ys ++ post ∧
+    (∀ n, n ≠ p → h'.kids n = (h.kids n).filter (fun k => !ys.contains k)) ∧ (∀ y ∈ ys, h'.parent y = some p) :=
+  BS.Heap.insertAfter_many_effect ys h h' x p pre post hg hp hnd hx hk hxs hsplit hr
+
+/-- **replace_with(y₁, …, yₙ)** (distinct elements, none of them `x` or `x`'s parent): `x` comes back detached and the `yᵢ` stand
+    contiguously, in the given order, where `x` stood; the other children keep their order -/
+theorem replace_with_many_effect {h h' : Heap} {x p : Nat} {ys pre post : List Nat} (hg : Good2 h) (hp : h.parent x = some p)
+    (hnd : ys.Nodup) (hxy : x ∉ ys) (hpy : p ∉ ys) (hk : ∀ y ∈ ys, h.kind y ≠ .soup) (hne : ys ≠ [])
+    (hsplit : h.kids p = pre ++ x :: post) (hr : replaceWith h x (ys.map Arg.node) = .ok h') :
+    h'.kids p = pre.filter (fun k => !ys.contains k) ++ ys ++ post.filter (fun k => !ys.contains k) ∧ h'.parent x = none :=
+  BS.Heap.replaceWith_many_effect hg hp hnd hxy hpy hk hne hsplit hr
+
 /-! non-vacuity: the calls succeed on a concrete tree (`t0` with children `[1,2,3,4]`) and give the stated lists -/
 def wFour : Except Err Heap :=
   run (Heap.init [.tag, .tag, .tag, .tag, .tag])
@@ -138,6 +166,9 @@ example : (wFour.bind fun h => (unwrap h 0).map (·.kids 0)).toOption = none := 
 example : (wFour.bind fun h => (clear h 0).map (·.kids 0)).toOption = some [] := by decide
 example : (wFour.bind fun h => (extendList h 0 [.node 3, .node 1]).map (·.kids 0)).toOption = some [2, 4, 3, 1] := by decide
 example : (wFour.bind fun h => (setString h 0 .str [120]).map (fun h => (h.kids 0, h.parent 2))).toOption = some ([5], none) := by decide
+example : (wFour.bind fun h => (insertBefore h 2 [.node 4, .node 1]).map (·.kids 0)).toOption = some [4, 1, 2, 3] := by decide
+example : (wFour.bind fun h => (insertAfter h 2 [.node 4, .node 1]).map (·.kids 0)).toOption = some [2, 4, 1, 3] := by decide
+example : (wFour.bind fun h => (replaceWith h 2 [.node 4, .node 1]).map (fun h => (h.kids 0, h.parent 2))).toOption = some ([4, 1, 3], none) := by decide
 def wFive : Except Err Heap :=
   run (Heap.init [.tag, .tag, .tag, .tag, .tag, .tag])
     [.append 0 (.node 1), .append 0 (.node 2), .append 0 (.node 3), .append 5 (.node 4)]
